@@ -116,6 +116,7 @@ def run_mem(case):
             net.fault = {'k': k0 + case['drop']['k'], 'reporter': case['drop']['reporter'], 'session': 0}
         # ---- issue the operations
         issued = []     # dict(op, mem, addr, len/data, accepted, superseded)
+        progress_logs = []
         busy_until_quiet = {}
         t_tx0 = len(link.tx)
         try:
@@ -158,7 +159,12 @@ def run_mem(case):
                         q = [i for i in issued if i['op'] == 'write' and i['mem'] == mid and not i.get('settled')]
                         for i in q[1:]:
                             i['maybe_superseded'] = True
-                    cf.mem.write(m, addr, data, flush_queue=op['flush'])
+                    if op.get('progress'):
+                        prog = []
+                        progress_logs.append((mid, addr, ln, prog))
+                        cf.mem.write(m, addr, data, flush_queue=op['flush'], progress_cb=lambda msg, pct, prog=prog: prog.append(pct))
+                    else:
+                        cf.mem.write(m, addr, data, flush_queue=op['flush'])
                     issued.append({'op': 'write', 'mem': mid, 'addr': addr, 'len': ln, 'data': data, 'accepted': True, 'maybe_superseded': late})
                 if ln > 25 or (op['op'] == 'read' and ln > 20):
                     multi = True
@@ -172,7 +178,7 @@ def run_mem(case):
             return out
         dropped = env.world.fault_fired
         stress = bool(pol['dups'] or pol['errors'] or dropped or any(d and d > 0.9 for d in pol['delays']))
-        out.nontrivial = multi and stress
+        out.nontrivial = (multi and stress) or any(ln_ > 2500 for (_m, _a, ln_, _p) in progress_logs)
         out.feat('multi-chunk' if multi else 'single-chunk', 'dup' if pol['dups'] else 'no-dup', 'errstatus' if pol['errors'] else 'no-err',
                  'linkdrop-%s' % case['drop']['reporter'] if dropped else 'no-drop', 'resending' if case['needs_resending'] else 'reliable',
                  'slow-replies' if any(d and d > 0.9 for d in pol['delays']) else 'fast-replies')
@@ -232,6 +238,13 @@ def run_mem(case):
             bad = [n for n in notes if n[0].endswith('-fail')]
             if bad:
                 out.fail('mem:spurious-failure:%s' % bad[0][0], '%s: no error status was injected and the link stayed up, but %r was reported' % (desc, [(n[0], n[1], n[2]) for n in bad]))
+        # ---- progress reports of writes: percentages, never decreasing, ending at 100 when the write succeeded
+        for (mid_, addr_, ln_, prog) in progress_logs:
+            if any(b < a for a, b in zip(prog, prog[1:])) or any(not (0 <= x <= 100) for x in prog):
+                out.fail('mem:write-progress', '%s: write(mem %d, %d bytes) reported progress %r' % (desc, mid_, ln_, prog[:20]))
+            ok_ = [i for i in issued if i['op'] == 'write' and i['mem'] == mid_ and i['addr'] == addr_ and i.get('result') == 'write-ok']
+            if ok_ and ln_ > 0 and (not prog or prog[-1] != 100) and not dropped and not pol['errors']:
+                out.fail('mem:write-progress', '%s: write(mem %d, %d bytes) succeeded, last progress report %r' % (desc, mid_, ln_, prog[-3:]))
         # ---- read data
         ambiguous_reads = set()
         if natural_dup:     # (explicitly injected duplicates are suppressed at delivery time once they have become ambiguous)
@@ -299,6 +312,13 @@ def run_mem(case):
                     out.fail('mem:reconnect-failed', '%s: events %r' % (desc, rec.names()))
                     return out
                 attach()
+            # answers of the previous session that were still on their way (the firmware knows nothing about sessions) and an
+            # answer for a memory nobody asked about arrive first: they have to be ignored
+            cur = env.world.links[-1]
+            for mid in list(range(len(sizes))) + [len(sizes) + 3]:
+                cur.deliver((4, 2, struct.pack('<BIB', mid, 25, 0)), delay=0.0005)
+                cur.deliver((4, 1, struct.pack('<BIB', mid, 20, 0) + b'\x11' * 10), delay=0.0007)
+            s.sleep(0.01)
             for mid in range(len(sizes)):
                 m = cf.mem.get_mem(mid)
                 n0 = len(notes)
@@ -321,7 +341,7 @@ def run_mem(case):
 _len = st.one_of(st.sampled_from([0, 1, 19, 20, 21, 24, 25, 26, 39, 40, 41, 49, 50, 51, 60, 75, 76, 100]), st.integers(0, 120))
 _op = st.fixed_dictionaries({'op': st.sampled_from(['read', 'write', 'write']), 'mem': st.integers(0, 2), 'addr': st.integers(0, 300),
                              'len': _len, 'seed': st.integers(0, 50), 'flush': st.sampled_from([False, False, True]),
-                             'gap': st.sampled_from([0, 0, 0, 0.0005, 0.01, 5.0])})
+                             'gap': st.sampled_from([0, 0, 0, 0.0005, 0.01, 5.0]), 'progress': st.sampled_from([False, False, True])})
 _sched = st.fixed_dictionaries({'prefix': st.lists(st.integers(0, 3), max_size=30), 'seed': st.integers(0, 10 ** 6),
                                 'rate': st.sampled_from([0.0, 0.0, 0.05, 0.2, 0.5])})
 
@@ -498,6 +518,15 @@ def deck_api_case(draw):
     return {'decks': [{'base': b} for b in bases], 'ops': ops, 'errors': errors}
 
 
+def long_write_cases(tier):
+    """writes of thousands of bytes with a progress callback (hundreds of chunks: several acknowledgements per percent)"""
+    for ln in (2500, 2525, 2550, 2600, 3333, 5000):
+        for addr in (0, 13):
+            op = {'op': 'write', 'mem': 0, 'addr': addr, 'len': ln, 'seed': ln % 50, 'flush': False, 'gap': 0, 'progress': True}
+            yield {'sizes': [6000], 'ops': [op, {'op': 'write', 'mem': 0, 'addr': 5500, 'len': 30, 'seed': 1, 'flush': False, 'gap': 0}], 'needs_resending': False,
+                   'policy': {'delays': [], 'dups': [], 'errors': [], 'dup_gap': 0.001}, 'drop': None, 'asap': True, 'schedule': {'prefix': [], 'seed': ln, 'rate': 0.0}}
+
+
 def single_preemption_cases(tier):
     """replies without latency; exactly one forced thread switch at the k-th scheduling decision of a fixed history"""
     hist = [
@@ -518,6 +547,7 @@ def subchecks(tier):
         Sub('histories', run_mem, strategy=mem_case(), examples={'quick': 160, 'thorough': 8000}),
         Sub('late-duplicates', run_mem, cases=late_duplicate_cases, distinct_by_construction=True),
         Sub('single-preemptions', run_mem, cases=single_preemption_cases, distinct_by_construction=True),
+        Sub('long-writes', run_mem, cases=long_write_cases, distinct_by_construction=True),
         Sub('drop-sweep', run_mem, cases=drop_sweep_cases, distinct_by_construction=True),
         Sub('deck-api', run_deck_api, strategy=deck_api_case(), examples={'quick': 600, 'thorough': 30000}),
     ]
